@@ -27,15 +27,35 @@ class Table:
             self.arms.setdefault(f["arm"], []).append(f)
 
     def neq(self, arm, path):
-        """is there a comparison of the two operands' `path` whose inequality leads to the rejecting result?"""
-        for f in self.arms.get(arm, []):
+        """is there, on every alternative that can produce the accepting result, a comparison of the two operands' `path`
+        whose inequality leads to the rejecting result?"""
+        fs = self.arms.get(arm, [])
+
+        def is_eq(f):
             if f["kind"] != "cmp":
-                continue
+                return False
             l, r = f["l"], f["r"]
-            if rel(l) == tuple(path) and rel(r) == tuple(path) and side(l) != side(r):
-                if (f["op"] == "Ne" and f["reject_when"] is True) or (f["op"] == "Eq" and f["reject_when"] is False):
-                    return True
-        return False
+            rl, rr = rel(l), rel(r)
+            if rl is None or rr is None or side(l) == side(r):
+                return False
+            same = rl == tuple(path) and rr == tuple(path)
+            # the single payload of a one-field variant stands for the whole value inside an alternative that matched that variant
+            ext = rl == rr and len(rl) == len(path) + 1 and rl[:len(path)] == tuple(path) and str(rl[-1]).endswith(".0") and f.get("alt")
+            return (same or ext) and ((f["op"] == "Ne" and f["reject_when"] is True) or (f["op"] == "Eq" and f["reject_when"] is False))
+        eqs = [f for f in fs if is_eq(f)]
+        if not eqs:
+            return False
+        alts = {tuple(f.get("alt", ())) for f in fs}
+        leaves = [a for a in alts if a and not any(b != a and b[:len(a)] == a for b in alts)]
+        for leaf in leaves:
+            group = [f for f in fs if tuple(f.get("alt", ())) == leaf]
+            # an alternative that only ever rejects needs no comparison
+            if group and all(f["kind"] == "literal" and f.get("reject") for f in group):
+                continue
+            if not any(tuple(e.get("alt", ())) == leaf[:len(tuple(e.get("alt", ())))] for e in eqs):
+                self.last_gap = (arm, path, leaf)
+                return False
+        return True
 
     def rec(self, arm, path, fn=None):
         for f in self.arms.get(arm, []):
@@ -239,13 +259,13 @@ LAYOUT_LITERAL_REJECT = ["SchemaOption", "Custom", "FnClosure", "_"]
 LAYOUT_LITERAL_ACCEPT = ["ZeroSize"]
 
 
-@rule("Q3", ["C11"], floor=35, doc="Schema::layout_compatible is conservative and complete: yes only if size, alignment, "
+@rule("Q3", ["C11", "C10"], floor=35, doc="Schema::layout_compatible is conservative and complete: yes only if size, alignment, "
       "every field offset, discriminant width and values, collection layout are known on both sides and equal, recursively")
 def q3(facts, tier):
     f, tab, ex = extract(facts, "savefile::Schema::layout_compatible", "false")
     if f is None:
         return
-    P = ["C11"]
+    P = ["C11", "C10"]
     for arm, req in sorted(LAYOUT_REQUIRED.items()):
         for p in req.get("neq", []):
             ok = tab.neq(arm, p)
